@@ -34,6 +34,8 @@ type limitedResponseWriter struct {
 	// headerAtWriteHeader is the header as it stood when the handler called WriteHeader:
 	// net/http sends that, whatever the handler does to the map afterwards
 	headerAtWriteHeader http.Header
+	// trailerValues: trailer values set before the header went out (see restoreHeaderSnapshot)
+	trailerValues http.Header
 }
 
 // Write implements io.Writer, tracking bytes written and enforcing the limit
@@ -126,13 +128,7 @@ func (lrw *limitedResponseWriter) ensureHeaderWritten() {
 
 	// Changes made to the header map after WriteHeader do not belong to the response
 	if lrw.headerAtWriteHeader != nil {
-		h := lrw.ResponseWriter.Header()
-		for k := range h {
-			delete(h, k)
-		}
-		for k, v := range lrw.headerAtWriteHeader {
-			h[k] = v
-		}
+		lrw.trailerValues = restoreHeaderSnapshot(lrw.ResponseWriter.Header(), lrw.headerAtWriteHeader)
 		lrw.headerAtWriteHeader = nil
 	}
 
@@ -152,6 +148,8 @@ func (lrw *limitedResponseWriter) ensureHeaderWritten() {
 
 	lrw.ResponseWriter.WriteHeader(lrw.statusCode)
 	lrw.wroteHeader = true
+	addTrailerValues(lrw.ResponseWriter.Header(), lrw.trailerValues)
+	lrw.trailerValues = nil
 }
 
 // WriteHeader records the status code but doesn't write it yet
